@@ -563,6 +563,63 @@ func c17Sibling(r *vp.InstResult) {
 	r.Sample = map[string]any{"service": "Storage with 5 methods whose custom_return_type State lives in another file of the same Go package", "checked": "<M>QF returns *State"}
 }
 
+// c17ExplicitFalse: a boolean method option that is present with the value false declares nothing. The output
+// for a method must not change when such options are added to it.
+func c17ExplicitFalse(r *vp.InstResult) {
+	opts := []struct {
+		name string
+		num  protowire.Number
+	}{{"quorumcall", gen.ExtQuorumcall}, {"async", gen.ExtAsync}, {"correctable", gen.ExtCorrectable}, {"multicast", gen.ExtMulticast}, {"unicast", gen.ExtUnicast}, {"per_node_arg", gen.ExtPerNodeArg}}
+	bases := []gen.MethodSpec{
+		{Name: "M", In: "Req", Out: "Resp"},
+		{Name: "M", In: "Req", Out: "Resp", Quorumcall: true},
+		{Name: "M", In: "Req", Out: "Resp", Correctable: true},
+		{Name: "M", In: "Req", Out: "Resp", Multicast: true},
+	}
+	generate := func(m gen.MethodSpec) (map[string]string, string, error) {
+		c := &genCase{spec: gen.ServiceSpec{Pkg: "xf", Service: "Svc", Messages: []string{"Req", "Resp"}, Methods: []gen.MethodSpec{m}}}
+		if err := runPlugins(c, "protoc-gen-gorums", nil); err != nil {
+			return nil, "", err
+		}
+		r.Execs++
+		if c.res.Exit != 0 || c.res.Error != "" {
+			diag, _ := c.res.Diagnostic()
+			return nil, firstLine(diag), nil
+		}
+		return c.res.Files, "", nil
+	}
+	for _, base := range bases {
+		want, wdiag, err := generate(base)
+		if err != nil {
+			r.Error = err.Error()
+			return
+		}
+		for _, o := range opts {
+			set := map[protowire.Number]bool{gen.ExtQuorumcall: base.Quorumcall, gen.ExtCorrectable: base.Correctable, gen.ExtMulticast: base.Multicast}
+			if set[o.num] {
+				continue // the option is true in the base method
+			}
+			m := base
+			m.ExplicitFalse = []protowire.Number{o.num}
+			got, gdiag, err := generate(m)
+			if err != nil {
+				r.Error = err.Error()
+				return
+			}
+			label := fmt.Sprintf("%s + %s = false", base.Label(), o.name)
+			if base.Label() == "" {
+				label = fmt.Sprintf("plain rpc + %s = false", o.name)
+			}
+			if d, ok := sameFiles(want, got); !ok || wdiag != gdiag {
+				addViol(r, "C17/option-explicitly-false-treated-as-set", label, fmt.Sprintf("%s: the output differs from the output for the same method without the option (an option that is false declares nothing): %s %s", label, d, gdiag), nil)
+			}
+			r.Outcomes[label]++
+		}
+	}
+	r.States, r.Steps = r.Execs, r.Execs
+	r.Sample = map[string]any{"method": "rpc M(Req) returns (Resp) { option (gorums.quorumcall) = false; }", "expected": "the same output as for the method without options"}
+}
+
 func c17Binding(d genDir, regenerated bool) func(r *vp.InstResult) {
 	return func(r *vp.InstResult) {
 		fd, err := gen.RawDescFromGoFile(filepath.Join(repoDir, d.dir, d.pbgo))
@@ -614,7 +671,7 @@ func init() {
 			if err != nil {
 				return []instance{{"error", func(r *vp.InstResult) { r.Error = err.Error() }}}
 			}
-			out := []instance{{"current/static-bundle", c17Bundle}, {"binding-synthesised/identifier-spellings", c17Synth}, {"binding-synthesised/custom-return-type-in-sibling-file", c17Sibling}}
+			out := []instance{{"current/static-bundle", c17Bundle}, {"binding-synthesised/identifier-spellings", c17Synth}, {"binding-synthesised/custom-return-type-in-sibling-file", c17Sibling}, {"binding-synthesised/options-explicitly-false", c17ExplicitFalse}}
 			for _, d := range dirs {
 				out = append(out, instance{"current/" + d.dir, c17Current(d)})
 				out = append(out, instance{"binding-committed/" + d.dir, c17Binding(d, false)})
